@@ -122,6 +122,8 @@ def rand_history(rng):
                 # the array itself as the block (only where the assignment cannot grow it: the value would
                 # change under the assignment's own row extension)
                 val = ["self"]
+            elif kind < 0.04:
+                val = ["str", rng.choice(TXT) if rng.random() < 0.7 else "xy"]      # a str for any region (mostly an error)
             elif ri[0] == "i" and ci[0] == "i" and kind < 0.3:
                 val = ["str", rng.choice(TXT) if rng.random() < 0.8 else "xy"]
             elif kind < 0.15 and rows:
@@ -160,6 +162,13 @@ def snapshot(a):
     return rows
 
 
+def shape_ok(a):
+    try:
+        return a.height == len(a.rows) == len(a) and a.width == a.num_columns and tuple(a.shape) == (len(a.rows), a.num_columns)
+    except Exception:  # noqa
+        return False
+
+
 def run(inp):
     init = inp["init"]
     out = {"init": None, "steps": []}
@@ -173,7 +182,7 @@ def run(inp):
                 a = fsarray(args[0], init[2], **kw)
             else:
                 a = fsarray(args[0], **kw)
-        out["init"] = ["ok", snapshot(a), a.num_columns]
+        out["init"] = ["ok", snapshot(a), a.num_columns] if shape_ok(a) else ["raise", "OtherError"]
     except Exception as e:
         out["init"] = ["raise", canon.exn_name(e)]
         return out
@@ -195,10 +204,15 @@ def run(inp):
                 val = [build_val(r) for r in v[1]]
             raised = None
             try:
-                a[py_index(op[1]), py_index(op[2])] = val
+                if op[2] == ["s", None, None] and op[1][0] == "s" and op[3][0] != "str" and (len(inp["ops"]) + op[1][1]) % 2:
+                    a[py_index(op[1])] = val            # the one-dimensional form of the same assignment
+                else:
+                    a[py_index(op[1]), py_index(op[2])] = val
             except Exception as e:
                 raised = canon.exn_name(e) + ": " + str(e)[:60]
             out["steps"].append(["set", raised, snapshot(a)] + ([used] if used is not None else []))
+            if not shape_ok(a):
+                out["steps"][-1][1] = "OtherError: height / width / shape / len disagree with the rows"
         elif op[0] == "get":
             out["steps"].append(["get"] + canon.outcome(lambda: a[py_index(op[1]), py_index(op[2])],
                                                         lambda rows: [canon.canon_fs(r) for r in rows]))
